@@ -78,10 +78,78 @@ func insertFences(repo string) error {
 			return err
 		}
 	}
+	// body-read fence: the handler side of "n request body bytes were read" (a goroutine of
+	// the outbound transport, holding no lock) parks before it tells the serve loop, so that
+	// the controller can let a RST_STREAM overtake the pending credit message
+	if err := insertFuncStartFence(filepath.Join(repo, "pkg/http2/server.go"), "noteBodyReadFromHandler", "verifYieldBodyRead"); err != nil {
+		missing = append(missing, "noteBodyReadFromHandler: "+err.Error())
+	}
+	// capture fences: a yield before every "<x>.Mu.Lock()" statement in the forked
+	// server (the locks around the captured fingerprint data), so that the controller
+	// can run a handler between two critical sections of one frame's capture
+	if err := insertLockFences(filepath.Join(repo, "pkg/http2/server.go")); err != nil {
+		missing = append(missing, "capture locks: "+err.Error())
+	}
 	if len(missing) > 0 {
 		return fmt.Errorf("fence sites not found: %v", missing)
 	}
 	return nil
+}
+
+func insertLockFences(path string) error {
+	fset := token.NewFileSet()
+	f, err := parser.ParseFile(fset, path, nil, parser.ParseComments)
+	if err != nil {
+		return err
+	}
+	n := 0
+	isMuLock := func(st ast.Stmt) bool {
+		es, ok := st.(*ast.ExprStmt)
+		if !ok {
+			return false
+		}
+		call, ok := es.X.(*ast.CallExpr)
+		if !ok {
+			return false
+		}
+		sel, ok := call.Fun.(*ast.SelectorExpr)
+		if !ok || sel.Sel.Name != "Lock" {
+			return false
+		}
+		inner, ok := sel.X.(*ast.SelectorExpr)
+		return ok && inner.Sel.Name == "Mu"
+	}
+	var rewrite func(list []ast.Stmt) []ast.Stmt
+	rewrite = func(list []ast.Stmt) []ast.Stmt {
+		var out []ast.Stmt
+		for _, st := range list {
+			if isMuLock(st) {
+				out = append(out, &ast.ExprStmt{X: &ast.CallExpr{Fun: ast.NewIdent("verifYieldCapture")}})
+				n++
+			}
+			out = append(out, st)
+		}
+		return out
+	}
+	ast.Inspect(f, func(nd ast.Node) bool {
+		switch x := nd.(type) {
+		case *ast.BlockStmt:
+			x.List = rewrite(x.List)
+		case *ast.CaseClause:
+			x.Body = rewrite(x.Body)
+		case *ast.CommClause:
+			x.Body = rewrite(x.Body)
+		}
+		return true
+	})
+	if n == 0 {
+		return fmt.Errorf("no Mu.Lock() statement found")
+	}
+	var sb strings.Builder
+	if err := format.Node(&sb, fset, f); err != nil {
+		return err
+	}
+	return os.WriteFile(path, []byte(sb.String()), 0o644)
 }
 
 func selectSends(s *ast.SelectStmt) bool {
@@ -331,4 +399,31 @@ func raceRelevant(id, rep string) bool {
 		}
 	}
 	return false
+}
+
+func insertFuncStartFence(path, fn, hook string) error {
+	fset := token.NewFileSet()
+	f, err := parser.ParseFile(fset, path, nil, parser.ParseComments)
+	if err != nil {
+		return err
+	}
+	found := false
+	for _, d := range f.Decls {
+		fd, ok := d.(*ast.FuncDecl)
+		if !ok || fd.Name.Name != fn || fd.Body == nil || fd.Recv == nil || len(fd.Recv.List) == 0 || len(fd.Recv.List[0].Names) == 0 {
+			continue
+		}
+		recv := fd.Recv.List[0].Names[0].Name
+		call := &ast.ExprStmt{X: &ast.CallExpr{Fun: ast.NewIdent(hook), Args: []ast.Expr{ast.NewIdent(recv)}}}
+		fd.Body.List = append([]ast.Stmt{call}, fd.Body.List...)
+		found = true
+	}
+	if !found {
+		return fmt.Errorf("function not found")
+	}
+	var sb strings.Builder
+	if err := format.Node(&sb, fset, f); err != nil {
+		return err
+	}
+	return os.WriteFile(path, []byte(sb.String()), 0o644)
 }
